@@ -8,8 +8,19 @@ META = dict(
 )
 
 
+def build_driver_lib(ctx):
+    """The line-protocol driver imports executable-only modules that no Props module imports; make sure their
+    .olean files are current (lean --run does not rebuild imports)."""
+    import verif
+    mods = "PocketModel.Store.DiskDriver".split()
+    rc, out = verif.sh(["lake", "build"] + mods, cwd=verif.LEAN, timeout=3000)
+    if rc != 0:
+        ctx.fail("build", "driver-lib", "lake build %s failed:\n%s" % (" ".join(mods), out[-1200:]))
+
+
 def run(ctx):
     ctx.lean_proofs("Props.C08")
+    build_driver_lib(ctx)
     ctx.rule("c08: per history 1-3 IAVL substores, 2-6 blocks of 0-7 writes over 4-13 keys (1/4 of the histories: up to 20 writes over 30-69 keys), "
              "1/3 deletes; then for every target 1..latest+1: copy of the DB, RollbackVersion on a fresh object, reopen, LoadVersion of every "
              "version, lazy loads, replay of the remaining blocks; non-trivial = rollback/reopen/lazy/commit/state line (distinct)")
